@@ -150,6 +150,15 @@ fn targeted() -> Vec<Vec<u8>> {
     v
 }
 
+/// a cheap digest of a rendering (frames of many kB are compared by digest)
+fn md5ish(s: &str) -> u64 {
+    let mut h: u64 = 0xcbf29ce484222325;
+    for x in s.bytes() {
+        h = (h ^ x as u64).wrapping_mul(0x100000001b3);
+    }
+    h
+}
+
 fn random_value(rng: &mut impl Rng, depth: usize) -> RespValue {
     let line = |rng: &mut dyn rand::RngCore| -> String {
         let n = rng.gen_range(0..6);
@@ -278,6 +287,63 @@ pub fn main(args: &[String]) -> i32 {
                         }
                         out.emit(&json!({"t": "frag", "run": run, "s": s, "cuts": [i, j], "frames": frames, "left": buf.len(), "bad": bad}));
                     }
+                }
+            }
+        }
+        // frames far larger than any buffer size constant, fed in pieces: same frames as when fed whole
+        Some("fragbig") => {
+            for n in [1000usize, 8192, 65000, 65536, 65537, 70000, 100_000, 1 << 20, (4 << 20) + 3] {
+                let mut s: Vec<u8> = Vec::new();
+                s.extend_from_slice(b"*3\r\n$6\r\nAPPEND\r\n$1\r\nk\r\n");
+                s.extend_from_slice(format!("${n}\r\n").as_bytes());
+                s.extend((0..n).map(|i| b'a' + (i % 23) as u8));
+                s.extend_from_slice(b"\r\n*1\r\n$4\r\nPING\r\n:7\r\n");
+                let feed = |parts: Vec<&[u8]>| -> (Vec<String>, usize, String) {
+                    let mut buf = BytesMut::new();
+                    let mut frames = Vec::new();
+                    let mut bad = String::new();
+                    'outer: for part in parts {
+                        buf.extend_from_slice(part);
+                        loop {
+                            match catch(|| RespCodec::parse(&mut buf)) {
+                                Ok(Ok(Some(v))) => frames.push(format!("{:x}", md5ish(&zc_json(&v).to_string()))),
+                                Ok(Ok(None)) => break,
+                                Ok(Err(e)) => {
+                                    bad = format!("err {e}");
+                                    break 'outer;
+                                }
+                                Err(p) => {
+                                    bad = format!("panic {p}");
+                                    break 'outer;
+                                }
+                            }
+                        }
+                    }
+                    (frames, buf.len(), bad)
+                };
+                let whole = feed(vec![&s[..]]);
+                let len = s.len();
+                let mut cutsets: Vec<Vec<usize>> = vec![vec![n / 2], vec![10, n + 5], vec![len - 1], vec![len - 20, len - 3], vec![30 + n / 3, 30 + 2 * n / 3]];
+                if len > 65537 {
+                    cutsets.push(vec![65536]);
+                    cutsets.push(vec![65537]);
+                    cutsets.push(vec![65536, 65538]);
+                }
+                cutsets.push((1..len / 8192 + 1).map(|i| i * 8192).filter(|c| *c < len).collect());
+                cutsets.push((1..len / 16384 + 1).map(|i| i * 16384 - 1).filter(|c| *c < len).collect());
+                for cuts in cutsets {
+                    let mut parts: Vec<&[u8]> = Vec::new();
+                    let mut last = 0;
+                    for c in &cuts {
+                        if *c > last && *c < len {
+                            parts.push(&s[last..*c]);
+                            last = *c;
+                        }
+                    }
+                    parts.push(&s[last..]);
+                    let got = feed(parts);
+                    out.emit(&json!({"t": "fragbig", "run": out.n + 1, "n": n, "ncuts": cuts.len(), "first_cut": cuts.first(), "nframes": got.0.len(), "whole_nframes": whole.0.len(),
+                                     "same": got.0 == whole.0, "left": got.1, "bad": got.2, "whole_bad": whole.2}));
                 }
             }
         }
